@@ -1,7 +1,505 @@
 import Driver.Common
-open Lean Drv
+import NriModel.MuxSys
+open Lean Drv Nri Nri.Mux
+
+/-!
+Driver for C10 (and the pieces C11 shares: hex decoding, payload regeneration, the script
+judge, the whole-write interleaving search).
+
+`traffic` cases: the tapped trunk of each direction is decoded with the model's `decode`;
+a linearisation of the writers' programs is searched (untrusted witness), then CHECKED:
+the model's `encodeWrites` of that linearisation must equal the tapped bytes exactly, and
+what every reader got must equal the model's demultiplexing of those frames.  The property
+itself is evaluated on the observation alone: per connection the bytes read are an
+interleaving by whole writes of what the writers wrote to that id.
+
+`script` cases: every observed result is accepted or rejected by `Sys.apply`.
+-/
+
+namespace Drv.MuxD
+
+def hexVal (c : UInt8) : UInt8 :=
+  if c ≥ 48 && c ≤ 57 then c - 48 else if c ≥ 97 && c ≤ 102 then c - 87 else 0
+
+/-- hex string → bytes (built back to front, no recursion on the output) -/
+def hexBytes (s : String) : Bytes :=
+  let a := s.toUTF8
+  let rec go : Nat → Bytes → Bytes
+    | 0, acc => acc
+    | i + 1, acc => go i ((hexVal a[2 * i]! * 16 + hexVal a[2 * i + 1]!) :: acc)
+  go (a.size / 2) []
+
+/-- `c10.Payload(n, seed, step)`: byte j = seed + j*step (mod 256) -/
+def genPayload (n seed step : Nat) : Bytes :=
+  let rec go : Nat → Bytes → Bytes
+    | 0, acc => acc
+    | j + 1, acc => go j (UInt8.ofNat ((seed + j * step) % 256) :: acc)
+  go n []
+
+structure WSpec where
+  conn : Nat
+  len : Nat
+  seed : Nat
+  step : Nat
+
+def getWSpec (j : Json) : Except String WSpec := do
+  pure { conn := ← getNat j "conn", len := ← getNat j "len", seed := ← getNat j "seed", step := ← getNat j "step" }
+
+def getPrograms (j : Json) (k : String) : Except String (List (List WSpec)) := do
+  let ps ← getArr j k
+  ps.mapM fun p => match p with
+    | Json.arr a => a.toList.mapM getWSpec
+    | Json.null => pure []
+    | _ => throw s!"{k}: program is not an array"
+
+/-- search for the order in which whole writes reached the trunk (untrusted witness finder;
+    its answer is checked by re-encoding).  `progs[w]` = remaining writes of writer `w`, each
+    as the frames it must produce.  Returns the order and the remaining search budget. -/
+partial def findOrder (progs : List (List (List Frame))) (fs : List Frame) (budget : Nat) :
+    Option (List Nat) × Nat :=
+  if budget = 0 then (none, 0)
+  else if progs.all (·.isEmpty) then ((if fs.isEmpty then some [] else none), budget - 1)
+  else
+    let rec tryW (w : Nat) (pre post : List (List (List Frame))) (budget : Nat) :
+        Option (List Nat) × Nat :=
+      match post with
+      | [] => (none, budget)
+      | p :: rest =>
+        match p with
+        | [] => tryW (w + 1) (pre ++ [p]) rest budget
+        | wr :: more =>
+          if wr.isPrefixOf fs then
+            match findOrder (pre ++ [more] ++ rest) (fs.drop wr.length) (budget - 1) with
+            | (some ord, b) => (some (w :: ord), b)
+            | (none, b) => if b = 0 then (none, 0) else tryW (w + 1) (pre ++ [p]) rest b
+          else tryW (w + 1) (pre ++ [p]) rest budget
+    tryW 0 [] progs budget
+
+/-- byte-level version for the specification: `progs[w]` = remaining payloads of writer `w`
+    on ONE connection; is `s` an interleaving of them by whole writes? -/
+def isInterleaving : Nat → List (List Bytes) → Bytes → Bool
+  | 0, _, _ => false
+  | fuel + 1, progs, s =>
+    -- empty writes contribute nothing and can be taken at once
+    let progs := progs.map fun p => p.dropWhile (·.isEmpty)
+    if progs.all (·.isEmpty) then s.isEmpty
+    else
+      let rec tryW (pre post : List (List Bytes)) : Bool :=
+        match post with
+        | [] => false
+        | p :: rest =>
+          match p with
+          | [] => tryW (pre ++ [p]) rest
+          | wr :: more =>
+            (wr.isPrefixOf s && isInterleaving fuel (pre ++ [more] ++ rest) (s.drop wr.length))
+              || tryW (pre ++ [p]) rest
+      tryW [] progs
+
+/-- rebuild the linearised write list from an order of writer indices -/
+def linearise : List Nat → List (List (Nat × Bytes)) → Option (List (Nat × Bytes))
+  | [], progs => if progs.all (·.isEmpty) then some [] else none
+  | w :: ord, progs =>
+    match progs[w]? with
+    | some (wr :: more) => (linearise ord (progs.set w more)).map (wr :: ·)
+    | _ => none
+
+def sizeClass (mp n : Nat) : String :=
+  if n = 0 then "size:0" else if n = 1 then "size:1" else if n + 1 = mp then "size:mp-1"
+  else if n = mp then "size:mp" else if n = mp + 1 then "size:mp+1"
+  else if n > 2 * mp then "size:>2mp" else if n > mp then "size:>mp"
+  else if n ≤ 256 then "size:small" else "size:medium"
+
+def sentinelLen : Nat := 13
+
+structure DirResult where
+  agree : Bool
+  spec : Bool
+  why : String
+  sig : String
+  raced : Bool
+
+/-- one direction of a traffic case -/
+def judgeDir (mp : Nat) (ids : List Nat) (progs : List (List WSpec)) (trunkHex : String)
+    (reads : Json) (dir : String) : Except String DirResult := do
+  let sentinel : List WSpec := ids.map fun id => { conn := id, len := sentinelLen, seed := 255, step := 0 }
+  let progs := progs ++ [sentinel]
+  let payloads : List (List (Nat × Bytes)) := progs.map fun p => p.map fun w => (w.conn, genPayload w.len w.seed w.step)
+  let trunk := hexBytes trunkHex
+  let (frames, tail) := decode trunk
+  -- what each reader got
+  let got : List (Nat × List Bytes) ← ids.mapM fun id => do
+    let a ← getArr reads (toString id)
+    let fr ← a.mapM fun x => match x with
+      | Json.str s => pure (hexBytes s) | _ => throw "reads: non-string"
+    pure (id, fr)
+  -- the property on the observation alone
+  let specBad := got.filterMap fun (id, fr) =>
+    let mine := payloads.map fun p => (p.filter (·.1 == id)).map (·.2)
+    if isInterleaving 200000 mine fr.flatten then none else some id
+  let spec := specBad.isEmpty
+  -- the model: the trunk is the concatenation of whole encoded writes in some order …
+  let want : List (List (List Frame)) := payloads.map fun p => p.map fun (id, b) =>
+    (framesOfWrite mp id b).getD []
+  let mut agree := true
+  let mut why := ""
+  let mut raced := false
+  if !tail.isEmpty then
+    agree := false; why := s!"{dir}: trunk does not parse: {frames.length} frames then {tail.length} stray bytes"
+  else
+    match (findOrder want frames 400000).1 with
+    | none => agree := false; why := s!"{dir}: the {frames.length} trunk frames are not a concatenation of whole writes"
+    | some ord =>
+      raced := (ord.zip (ord.drop 1)).any fun (a, b) => a > b
+      -- trusted check of the witness: the frames of the writes, linearised in that order, are
+      -- exactly the decoded frames (and the tail is empty).  By `decode_sound` and
+      -- `encodeWrites_eq` this is equivalent to `encodeWrites mp ws = some trunk`; small
+      -- trunks are also re-encoded and compared byte for byte.
+      match linearise ord (payloads.map fun p => p.map fun (id, b) => (id, b)) with
+      | none => agree := false; why := s!"{dir}: internal: order does not linearise"
+      | some ws =>
+        let wsFrames := ws.flatMap fun (id, b) => (framesOfWrite mp id b).getD []
+        if wsFrames != frames then
+          agree := false; why := s!"{dir}: frames of the linearised writes differ from the trunk frames"
+        else if trunk.length ≤ 2000000 then
+          match encodeWrites mp ws with
+          | none => agree := false; why := s!"{dir}: model write loop faults"
+          | some bytes =>
+            if bytes != trunk then
+              agree := false; why := s!"{dir}: model encoding of the linearised writes differs from the tapped trunk"
+  -- … and every reader got exactly the frames addressed to its id, in order
+  if agree then
+    for (id, fr) in got do
+      if payloadsOf id frames != fr then
+        agree := false
+        why := s!"{dir}: connection {id}: reader got {fr.length} frames, trunk carries {(payloadsOf id frames).length}, or contents differ"
+  let why2 := if !spec then s!"{dir}: bytes read on connection(s) {specBad} are not an interleaving by whole writes of what was written" else why
+  pure { agree := agree, spec := spec, why := why2, sig := if spec then "" else "C10:stream-mismatch", raced := raced }
+
+def judgeTraffic (inp obs : Json) : Except String Verdict := do
+  let mp ← getNat inp "mp"
+  let qlen ← getNat inp "qlen"
+  let ids := (← getArr inp "ids").filterMap fun j => (j.getNat?).toOption
+  let pa ← getPrograms inp "a"
+  let pb ← getPrograms inp "b"
+  let crashed := getStrD obs "crashed"
+  let status := getStrD obs "status"
+  let allw := (pa ++ pb).flatten
+  let cover := ["traffic", s!"qlen:{qlen}", s!"ids:{ids.length}", s!"writers:{pa.length}+{pb.length}",
+      "note:" ++ getStrD inp "note"] ++ (allw.map (sizeClass mp ·.len)).eraseDups
+  if crashed != "" then
+    return { agree := false, spec := false, why := s!"implementation {crashed}", sig := "C10:crashed",
+             cover := cover ++ ["crashed"], nontrivial := true }
+  if status != "ok" then
+    let errs := (← getStrList obs "errs")
+    return { agree := false, spec := false, sig := "C10:" ++ (status.splitOn ":").head!,
+             why := s!"traffic did not complete: {status} {errs.take 3}", cover := cover ++ ["status:" ++ status],
+             nontrivial := true }
+  let ab ← judgeDir mp ids pa (← getStr obs "trunk_ab") (← getObj obs "reads_b") "A→B"
+  let ba ← judgeDir mp ids pb (← getStr obs "trunk_ba") (← getObj obs "reads_a") "B→A"
+  let spec := ab.spec && ba.spec
+  pure { agree := ab.agree && ba.agree, spec := spec,
+         why := if !ab.spec || (!ab.agree && ba.spec) then ab.why else if !ba.spec || !ba.agree then ba.why else "",
+         sig := if !ab.spec then ab.sig else ba.sig,
+         cover := cover ++ (if ab.raced || ba.raced then ["writers-interleaved"] else []) ++ ["trace"],
+         nontrivial := allw.length ≥ 2 }
+
+/-! ### scripts -/
+
+instance : Inhabited Op := ⟨{ kind := .cut, x := 0 }⟩
+instance : Inhabited Seen := ⟨.blocked⟩
+
+def getOp (j : Json) : Except String Op := do
+  let kind ← match (← getStr j "op") with
+    | "open" => pure OpKind.open | "dial" => pure .dial | "listen" => pure .listen
+    | "accept" => pure .accept | "acceptbg" => pure .acceptbg | "lclose" => pure .lclose
+    | "write" => pure .write | "read" => pure .read | "readbg" => pure .readbg | "join" => pure .join
+    | "closeconn" => pure .closeconn | "closemux" => pure .closemux | "cut" => pure .cut
+    | k => throw s!"unknown op {k}"
+  let len ← getNat j "len"
+  let seed ← getNat j "seed"
+  let step ← getNat j "step"
+  pure { kind := kind, x := ← getNat j "end", h := ← getNat j "h", id := ← getNat j "id",
+         payload := if kind == .write then genPayload len seed step else [],
+         blen := ← getNat j "blen", bcap := ← getNat j "bcap", k := ← getNat j "k" }
+
+def getSeen (j : Json) : Except String Seen := do
+  match (← getStr j "r") with
+  | "ok" => pure (.ok 0)
+  | "conn" => pure (.conn (← getNat j "h"))
+  | "lst" => pure (.lst (← getNat j "h"))
+  | "data" => pure (.data (hexBytes (← getStr j "data")) (← getNat j "n"))
+  | "err" => pure (.err (← getStr j "err"))
+  | "eof" => pure .eof
+  | "blocked" => pure .blocked
+  | "pending" => pure .pending
+  | "skipped" => pure (.err "skipped")
+  | r => throw s!"unknown result {r}"
+
+/-- a write result carries n -/
+def getSeenFor (op : Op) (j : Json) : Except String Seen := do
+  let s ← getSeen j
+  match op.kind, s with
+  | .write, .ok _ => pure (.ok (← getNat j "n"))
+  | _, s => pure s
+
+def isPrefixL {α} [BEq α] (a b : List α) : Bool := a.isPrefixOf b
+
+def isInfixL {α} [BEq α] (a : List α) : List α → Bool
+  | [] => a.isEmpty
+  | b :: bs => a.isPrefixOf (b :: bs) || isInfixL a bs
+
+structure SpecOut where
+  ok : Bool := true
+  why : String := ""
+  sig : String := ""
+  tags : List String := []
+
+/-- eventual result of op `i`: a background op's result is reported by its `join` or, if it
+    was never joined, at the end of the script -/
+def finalRes (ops : Array Op) (res : Array Seen) (late : List (Nat × Seen)) (i : Nat) : Seen :=
+  match late.find? (·.1 == i) with
+  | some (_, r) => r
+  | none =>
+    let op : Op := ops[i]!
+    if op.kind == OpKind.readbg || op.kind == OpKind.acceptbg then
+      match (List.range ops.size).find? fun j =>
+          let oj : Op := ops[j]!
+          oj.kind == OpKind.join && oj.k == i with
+      | some j => res[j]!
+      | none => res[i]!
+    else res[i]!
+
+/-- The C11/C10 property evaluated on a script's observation alone (no model):
+    nothing hangs once an end is known to be closed, closing never hangs, a Write after the
+    close fails, all Read errors of one end are equal, and what a handle received is a
+    contiguous piece (a prefix when it was opened before the first write to its id) of what
+    the peer successfully wrote to that id. -/
+def scriptSpec (ops : Array Op) (res : Array Seen) (late : List (Nat × Seen)) (guard : Bool) : SpecOut := Id.run do
+  let mut out : SpecOut := {}
+  let fail := fun (o : SpecOut) (why sig : String) => if o.ok then { o with ok := false, why := why, sig := sig } else o
+  -- eventual result of op i
+  let final := finalRes ops res late
+  -- fault points the INPUT determines: a cut armed at one end is reached by the successful
+  -- Write there that crosses it (or at once for k = 0); from then on the trunk is dead and
+  -- both ends must fail
+  let mut cutAt : Option Nat := none
+  let mut armed : List (Nat × Nat) := []      -- (end, bytes still forwarded)
+  for i in [0:ops.size] do
+    let op : Op := ops[i]!
+    if cutAt.isNone then
+      if op.kind == OpKind.cut && res[i]! == Seen.ok 0 then
+        if op.k == 0 then cutAt := some i else armed := (op.x, op.k) :: armed.filter (·.1 != op.x)
+      else if op.kind == OpKind.write then
+        match res[i]!, armed.find? (·.1 == op.x) with
+        | .ok _, some (_, left) =>
+          let bytes := 8 + op.payload.length     -- script payloads fit one frame
+          if bytes ≥ left then cutAt := some i
+          else armed := (op.x, left - bytes) :: armed.filter (·.1 != op.x)
+        | _, _ => pure ()
+  for x in [0, 1] do
+    -- when is end x known to be closed?  (first Read error on a conn that was not closed
+    -- individually, or a returned mux Close)
+    let mut closedAt : Option Nat := none
+    let mut connClosed : List Nat := []
+    let mut lstConn : List (Nat × Nat) := []      -- listener index ↦ conn handle (from accept results)
+    let mut openedAt : List (Nat × Nat) := []     -- handle ↦ op index of its creation
+    let mut errKinds : List String := []
+    let mut nl := 0
+    for i in [0:ops.size] do
+      let op := ops[i]!
+      if op.x != x then continue
+      let r := res[i]!
+      match op.kind, r with
+      | .open, .conn h | .dial, .conn h =>
+        if !(openedAt.any (·.1 == h)) then openedAt := openedAt ++ [(h, i)]
+      | .listen, .lst _ => nl := nl + 1
+      | .accept, .conn h => lstConn := lstConn ++ [(op.h, h)]
+      | .closeconn, .ok _ => connClosed := op.h :: connClosed
+      | .lclose, .ok _ =>
+        match lstConn.find? (·.1 == op.h) with
+        | some (_, h) => connClosed := h :: connClosed
+        | none => connClosed := connClosed   -- conn never handed out: its handle is unknown to the observer
+      | .closemux, .ok _ => if closedAt.isNone then closedAt := some i
+      | _, _ => pure ()
+      -- hangs
+      let isBlocked := final i == .blocked
+      if isBlocked then
+        match op.kind with
+        | .closeconn | .closemux | .lclose =>
+          out := fail out s!"op {i}: close did not return" "C11:close-hangs"
+        | .read | .readbg | .write =>
+          match closedAt with
+          | some c =>
+            let lateOpen := match openedAt.find? (·.1 == op.h) with
+              | some (_, oi) => decide (oi > c) | none => false
+            if lateOpen then
+              out := fail out s!"op {i}: Read on a connection opened after the mux had closed (op {c}) never returns" "C11:open-after-close:read-blocks"
+            else
+              out := fail out s!"op {i}: {if op.kind == .write then "Write" else "Read"} still blocked although the mux closed at op {c}" "C11:blocked-after-close"
+          | none =>
+            match cutAt with
+            | some c =>
+              if i > c + 1 && op.kind != OpKind.write then
+                out := fail out s!"op {i}: Read still blocked although the trunk was cut at op {c}" "C11:blocked-after-cut"
+            | none => pure ()
+        | _ => pure ()
+      -- results after the close
+      match closedAt with
+      | some c =>
+        if i > c then
+          match op.kind, r with
+          | .write, .ok _ => out := fail out s!"op {i}: Write succeeded after the mux closed (op {c})" "C11:write-ok-after-close"
+          | .read, .data _ _ => out := { out with tags := "select:data-after-close" :: out.tags }
+          | _, _ => pure ()
+      | none => pure ()
+      -- read errors
+      match op.kind, final i with
+      | .read, .err k | .readbg, .err k =>
+        if k != "enomem" then
+          errKinds := errKinds ++ [k]
+          -- (only an error returned at once dates the close; a call that blocked first, or a
+          -- background Read, got its error at an unknown later time)
+          if op.kind == .read && r != .blocked && closedAt.isNone && !(connClosed.contains op.h) then closedAt := some i
+          if op.kind == .readbg then out := { out with tags := "bgread:woken-by-error" :: out.tags }
+      | .readbg, .data _ _ => out := { out with tags := "bgread:woken-by-data" :: out.tags }
+      | _, _ => pure ()
+    -- a background Read/Accept still blocked at the end although the end closed
+    match closedAt with
+    | some c =>
+      for (i, r) in late do
+        if i < ops.size && ops[i]!.x == x && r == .blocked && ops[i]!.kind == .readbg then
+          let lateOpen := match openedAt.find? (·.1 == ops[i]!.h) with
+            | some (_, oi) => decide (oi > c) | none => false
+          if !lateOpen then
+            out := fail out s!"op {i}: background Read was never woken although the mux closed at op {c}" "C11:reader-not-woken"
+    | none => pure ()
+    -- latch
+    match errKinds with
+    | k :: rest =>
+      if rest.any (· != k) then
+        out := fail out s!"end {x}: Reads returned different errors {errKinds.eraseDups}" "C11:error-not-latched"
+      out := { out with tags := ("err:" ++ k) :: out.tags }
+    | [] => pure ()
+    -- received ⊑ sent, per handle
+    if guard then
+      for (h, oi) in openedAt do
+        -- id of the handle
+        let id := ops[oi]!.id
+        let rcvd : List Bytes := (List.range ops.size).filterMap fun i =>
+          let op := ops[i]!
+          if op.x == x && op.h == h && (op.kind == .read || op.kind == .readbg) then
+            match final i with
+            | .data p _ => some p
+            | _ => none
+          else none
+        -- what the peer wrote successfully to this id, handle by handle of the peer with that id
+        let peerHandles : List Nat := (List.range ops.size).filterMap fun i =>
+          let op := ops[i]!
+          if op.x != x && (op.kind == .open || op.kind == .dial) && op.id == id then
+            match res[i]! with | .conn ph => some ph | _ => none
+          else none
+        let sent : List (Nat × Bytes) := (List.range ops.size).filterMap fun i =>
+          let op := ops[i]!
+          if op.x != x && op.kind == .write && peerHandles.contains op.h then
+            match res[i]! with | .ok _ => some (i, op.payload) | _ => none
+          else none
+        let sentAll := sent.map (·.2)
+        let sentAfter := (sent.filter (·.1 > oi)).map (·.2)
+        if !(isInfixL rcvd sentAll) then
+          out := fail out s!"end {x} handle {h} (id {id}): received frames are not a contiguous piece of what was written" "C11:gap-or-duplicate"
+        else if sentAfter.length == sentAll.length && !(isPrefixL rcvd sentAll) then
+          out := fail out s!"end {x} handle {h} (id {id}): received frames are not a prefix of what was written" "C11:not-a-prefix"
+  pure out
+
+def judgeScript (pid : String) (inp obs : Json) : Except String Verdict := do
+  let mp ← getNat inp "mp"
+  let qlen ← getNat inp "qlen"
+  let guard ← getBool inp "guard"
+  let note := getStrD inp "note"
+  let opsJ ← getArr inp "ops"
+  let ops ← opsJ.mapM getOp
+  let crashed := getStrD obs "crashed"
+  let cover0 := ["script", "note:" ++ note, s!"qlen:{qlen}", if getBoolD obs "late_closed" then "open-after-close:closed" else "open-after-close:open"]
+  if crashed != "" then
+    return { agree := false, spec := false, why := s!"implementation {crashed}", sig := pid ++ ":crashed",
+             cover := cover0 ++ ["crashed"], nontrivial := true }
+  let resJ ← getArr obs "res"
+  if resJ.length != ops.length then throw "res/ops length mismatch"
+  let res0 ← (ops.zip resJ).mapM fun (op, j) => getSeenFor op j
+  -- the harness abandons a script after three hung calls: judge what was executed
+  let nrun := (res0.takeWhile (· != Seen.err "skipped")).length
+  let ops := ops.take nrun
+  let res := res0.take nrun
+  let lateJ ← getArr obs "late"
+  let late : List (Nat × Seen) ← lateJ.mapM fun j => do
+    pure ((← getNat j "op"), (← getSeen (← getObj j "res")))
+  -- model: accept result by result
+  -- what Open does on a closed mux is measured on the code the observation comes from
+  let lateClosed := getBoolD obs "late_closed"
+  let mut s := Sys.init { mp := mp, qlen := qlen, lateClosed := lateClosed }
+  let mut agree := true
+  let mut why := ""
+  let mut idx := 0
+  for (op, r) in ops.zip res do
+    if agree then
+      let lt := (late.find? (·.1 == idx)).map (·.2)
+      match s.apply idx op r lt with
+      | .ok s' => s := s'
+      | .error e => agree := false; why := s!"op {idx}: {e}"
+    idx := idx + 1
+  if agree then
+    let s' := s.settle
+    -- background operations never joined: resolve them now, in issue order, with the result
+    -- the implementation reported at the end of the script
+    let mut fin := s'
+    for (i, r) in late do
+      if agree && i < ops.length then
+        let op := ops[i]!
+        let e := fin.getEnd op.x
+        if op.kind == .readbg then
+          match e.pend.find? (·.op == i) with
+          | none => pure ()     -- joined during the script
+          | some p =>
+            match e.readSeen p.h p.blen p.bcap r with
+            | .ok e' => fin := fin.setEnd op.x { e' with pend := e'.pend.filter (·.op != i) }
+            | .error m => agree := false; why := s!"op {i} (background Read, at the end): {m}"
+        else if op.kind == .acceptbg then
+          match e.doneAcc.find? (·.1 == i), r with
+          | some (_, .conn h), .conn h' => if h != h' then agree := false; why := s!"op {i}: Accept: model conn {h}, implementation {h'}"
+          | some (_, .eof), .eof => pure ()
+          | none, .blocked => pure ()
+          | _, r => agree := false; why := s!"op {i}: background Accept: model and implementation ({r.show}) differ"
+    -- the bytes on the trunk
+    if agree then
+      let tab := hexBytes (← getStr obs "trunk_ab")
+      let tba := hexBytes (← getStr obs "trunk_ba")
+      let same := fun (tap : Bytes) (w : Wire) => match w.exactUpTo with
+        | none => tap == w.sent
+        | some n => tap.take n == w.sent.take n && tap.length ≥ n
+      if !(same tab s'.ab) then agree := false; why := s!"trunk A→B: tapped {tab.length} bytes, model {s'.ab.sent.length} (or contents differ)"
+      else if !(same tba s'.ba) then agree := false; why := s!"trunk B→A: tapped {tba.length} bytes, model {s'.ba.sent.length} (or contents differ)"
+  let sp := scriptSpec ops.toArray res.toArray late guard
+  let anyErr := res.any fun r => match r with | .err k => k != "reserved" | _ => false
+  let kinds := (res.filterMap fun r => match r with
+    | .blocked => some "res:blocked" | .err "enomem" => some "res:enomem" | .eof => some "accept:eof" | _ => none).eraseDups
+  pure { agree := agree, spec := sp.ok || !guard,
+         why := if !sp.ok && guard then sp.why else why,
+         sig := if sp.ok || !guard then (if guard then "" else "guard:" ++ note) else sp.sig,
+         cover := cover0 ++ sp.tags.eraseDups ++ kinds ++ ["trace"],
+         nontrivial := anyErr, excluded := !guard }
+
+end Drv.MuxD
+
 namespace Drv.C10
-/-- placeholder until the property's driver is written -/
-def judge (_ : Json) : Except String Verdict := .error "C10 driver not implemented"
+open Drv.MuxD
+
+def judge (j : Json) : Except String Verdict := do
+  let inp ← getObj j "in"
+  let obs ← getObj j "obs"
+  match getStrD inp "kind" with
+  | "traffic" => judgeTraffic inp obs
+  | "script" => judgeScript "C10" inp obs
+  | k => throw s!"unknown case kind {k}"
+
 def main : IO UInt32 := runLines judge
 end Drv.C10
